@@ -40,6 +40,48 @@ def run_harness(R, n, seed, tag="", ops=None):
     return trace, out
 
 
+def crashed_history(trace):
+    """the last case of <trace>.ops: the operations logged before execution when the harness aborted"""
+    try:
+        lines = open(trace + ".ops", errors="replace").read().split("\n")
+    except OSError:
+        return None, []
+    last = max([i for i, l in enumerate(lines) if l.startswith("case ")] or [0])
+    body = [l for l in lines[last + 1:] if l.strip()]
+    hdr = [l for l in body if l.split(" ")[0] in ("threads", "dnl", "fibm") and not (l == "fibm 0" or l == "dnl 6000")]
+    ops = [l for l in body if l.split(" ")[0] not in ("threads", "dnl", "fibm")]
+    return hdr or ["threads 1"], ops
+
+
+def report_crash(R, label, trace, out):
+    """an abort of the harness (panic in the forwarder) is reported with the history that caused it"""
+    hdr, ops = crashed_history(trace)
+    m = re.search(r"(panic: [^\n]*|fatal error: [^\n]*)", out)
+    why = m.group(1)[:200] if m else "the Go harness aborted"
+    last = ops[-1] if ops else "?"
+    f = last.split(" ")
+    kind = f[0]
+    detail = ""
+    if kind == "data" and len(f) >= 5:
+        tok = f[4]
+        detail = ":token-symbolic" if tok.startswith("@") else (":no-token" if tok == "-" else ":token-%d-bytes" % (len(tok) // 2))
+    # shrink: the shortest sub-history on which the harness still aborts
+    tmp = os.path.join(R.work, "crash-ops")
+    def aborts(cand):
+        open(tmp, "w").write(ops_text(hdr, cand))
+        tr2, _ = run_harness(R, 1, 1, tag="-crash", ops=tmp)
+        return tr2 is None
+    try:
+        if ops and aborts(ops):
+            ops = vlib.ddmin(ops, aborts, budget=40)
+    except Exception:
+        pass
+    R.oracle_failure("harness-crash:%s%s" % (kind, detail),
+                     "the implementation aborted (%s) while executing `%s` after %d earlier operations of %s" % (why, last, max(0, len(ops) - 1), label),
+                     dict(trace=label, threads=hdr, ops=ops, output=out[-1500:],
+                          replay_hint="VERIF_OPS=<file with: case 0 / these header lines / these operations> go1.26 test -tags verif -run TestTrace ./harness/fwcore"))
+
+
 def case_ops(trace_lines, caseid):
     """the configuration header (thread count, dead-nonce lifetime, FIB implementation) and the `ev` lines of one case of a trace"""
     ops, on, hdr = [], False, ["threads 1"]
@@ -158,13 +200,13 @@ def run(R, prop, extra_assumptions=()):
     for i, c in enumerate(corpus):
         tr, out = run_harness(R, 1, 1, tag="-corpus%d" % i, ops=c)
         if tr is None:
-            R.oracle_failure("harness-crash:corpus", "the Go harness aborted on corpus case %s" % os.path.basename(c), dict(output=out[-3000:], ops_file=c))
+            report_crash(R, "corpus case " + os.path.basename(c), os.path.join(R.work, "trace-corpus%d" % i), out)
         else:
             traces.append(("corpus:" + os.path.basename(c), tr))
     n = 400 if R.quick else 12000
     tr, out = run_harness(R, n, R.seed)
     if tr is None:
-        R.oracle_failure("harness-crash", "the Go harness aborted (panic in the forwarder pipeline?)", dict(output=out[-3000:]))
+        report_crash(R, "the generated stream (seed %d)" % R.seed, os.path.join(R.work, "trace"), out)
         return R.finish()
     traces.append(("generated", tr))
 
